@@ -40,11 +40,18 @@ Proof. exact run_sched_reach. Qed.
 (* non-vacuity: the race of the property text (forget between a lookup's probe and its CAS) *)
 Example C09_race :
   match run_sched (cinit 1 ex_progs) ex_sched with
-  | Some (tr, s) => tr = [0; 4; 1; 9; 0; 3; 9] /\ rc_now s = 1 /\ ngen s = 2%nat /\ rcs s 0%nat = 0 /\
+  | Some (tr, s) => tr = [0; 4; 1; 5; 9; 0; 3; 9] /\ rc_now s = 1 /\ ngen s = 2%nat /\ rcs s 0%nat = 0 /\
                     ldone s = 1 /\ fnom s = 1 /\ fdec s = 1
   | None => False
   end.
 Proof. exact ex_race. Qed.
+Example C09_forget_retry :
+  match run_sched (cinit 1 ex_progs) ex_retry_sched with
+  | Some (tr, s) => tr = [0; 1; 2; 4; 5; 9; 5; 9] /\ rc_now s = 1 /\ ngen s = 1%nat /\
+                    ldone s = 1 /\ fnom s = 1 /\ fdec s = 1
+  | None => False
+  end.
+Proof. exact ex_retry. Qed.
 Example C09_init_body : forall r0 progs, Body (cinit r0 progs).
 Proof. exact cinit_body. Qed.
 
